@@ -13,7 +13,12 @@ from forml.provider.registry.filesystem import posix
 def _registry(ctx) -> posix.Registry:
     if 'registry' not in ctx:
         root = pathlib.Path(ctx['root'])
-        ctx['registry'] = posix.Registry(root / 'registry', staging=root / 'staging')
+        if os.environ.get('C05_REGISTRY') == 'volatile':  # lives in this process only (history half of the property)
+            from forml.provider.registry.filesystem import volatile  # pylint: disable=import-outside-toplevel
+
+            ctx['registry'] = volatile.Registry()
+        else:
+            ctx['registry'] = posix.Registry(root / 'registry', staging=root / 'staging')
         ctx['directory'] = asset.Directory(ctx['registry'])
     return ctx['registry']
 
@@ -77,7 +82,11 @@ def observe(ctx):
         for rkey in project.list():
             release = project.get(rkey)
             try:
-                manifest = registry.pull(pkey, rkey).manifest
+                if os.environ.get('C05_REGISTRY') == 'volatile':  # no packages are kept: the mounted artifact is
+                    artifact = registry.mount(pkey, rkey)
+                    manifest = prj.Manifest.read(artifact.path)
+                else:
+                    manifest = registry.pull(pkey, rkey).manifest
                 man = [str(manifest.name), str(manifest.version), manifest.package]
             except Exception as err:  # pylint: disable=broad-except
                 man = _err(err)
